@@ -1,24 +1,68 @@
 (* C04 — Answers do not depend on query history; matching never mutates the tree.  Statements only. *)
-From SV Require Import Base Regex Tree IR Lit Inputs Match MemoFacts.
+From SV Require Import Base Regex Tree IR Lit Inputs Match MemoFacts HistFacts.
 
-(* FULL STATEMENT: for every memo reachable by earlier queries on the same matcher,
-     fst (match_selectors ... m) = fst (match_selectors ... memo0)   (and the same exception if any).
-   Proved so far at the level of the :default table (below); the lifting through the whole of
-   match_selectors and the :lang / :indeterminate tables are decided per case by the history runs
-   (select with a shared memo vs one fresh matcher per element, implementation and model). *)
-Theorem C04_default_history_free_partial : forall cx p m, default_ok cx m ->
-  match match_default cx p m, match_default cx p memo0 with
-  | Ok (r, m'), Ok (r0, _) => r = r0 /\ default_ok cx m'
+(* A memo is `good` when every entry of its three tables (cached_meta_lang, cached_default_forms,
+   cached_indeterminate_forms) is a fact of the tree; the empty memo of a new matcher is good. *)
+Theorem C04_initial_memo_consistent : forall cx, good cx memo0.
+Proof. exact good_memo0. Qed.
+Print Assumptions C04_initial_memo_consistent.
+
+(* THE WHOLE MATCHER IS HISTORY-FREE: from any good memo (whatever earlier questions put into it), every
+   function of the mutual recursion returns the value -- or raises the exception -- it returns from the empty
+   memo, and leaves a good memo.  (det c: exists r, forall good m, c m yields r.) *)
+Theorem C04_matcher_history_free : forall bidi cx fuel,
+  (forall e p l, det cx (match_selectors bidi cx fuel e p l)) /\
+  (forall e p tag ids classes attrs nth subs relation contains lang flags,
+     det cx (match_compound bidi cx fuel e p tag ids classes attrs nth subs relation contains lang flags)) /\
+  (forall e p relation, det cx (match_relations bidi cx fuel e p relation)) /\
+  (forall e p nth, det cx (match_nth bidi cx fuel e p nth)).
+Proof. exact det_matcher. Qed.
+Print Assumptions C04_matcher_history_free.
+
+Theorem C04_same_as_fresh : forall cx A (c : M A), det cx c -> forall m, good cx m ->
+  match c m, c memo0 with
+  | Ok (v, m'), Ok (v0, _) => v = v0 /\ good cx m'
   | Raise e, Raise e0 => e = e0
   | _, _ => False
   end.
-Proof. exact match_default_transparent. Qed.
-Print Assumptions C04_default_history_free_partial.
+Proof. intros cx A c. exact (det_memo0 cx c). Qed.
+Print Assumptions C04_same_as_fresh.
 
-Theorem C04_initial_memo_consistent : forall cx, default_ok cx memo0.
-Proof. exact default_ok_memo0. Qed.
-Print Assumptions C04_initial_memo_consistent.
+(* select / filter / closest (a new matcher per call, one memo shared by all the elements of the call) are built
+   from the answers each element gets when asked ALONE with a fresh matcher, in document order, up to the limit;
+   the exception raised, if any, is the first one in document order. *)
+Theorem C04_select_is_per_element : forall bidi t ns sels p limit, valid_target t p = true ->
+  let cx := mk_ctx t p in
+  api_select bidi t ns sels p limit =
+  select_pure bidi cx (api_fuel sels) (Env ns false) sels (get_tag_descendants cx p false)
+              (if (limit <? 1)%Z then None else Some (Z.to_nat limit)).
+Proof. exact api_select_history_free. Qed.
+Print Assumptions C04_select_is_per_element.
 
-(* The namespace map and the iframe restriction that an HTML-only list swaps in are an
-   ARGUMENT of the recursive call in the model, so they are restored on every exit path by
-   construction; the implementation's save/restore is tied to that by the correspondence runs. *)
+Theorem C04_select_no_limit_is_filter : forall bidi cx fuel e sels l r,
+  select_pure bidi cx fuel e sels l None = Ok r ->
+  r = filter (fun q => match fresh bidi cx fuel e sels q with Ok true => true | _ => false end) l.
+Proof. exact select_pure_filter. Qed.
+Print Assumptions C04_select_no_limit_is_filter.
+
+Theorem C04_filter_is_per_element : forall bidi t ns sels p, valid_target t p = true ->
+  let cx := mk_ctx t p in
+  api_filter bidi t ns sels p = select_pure bidi cx (api_fuel sels) (Env ns false) sels (elem_children t p) None.
+Proof. exact api_filter_history_free. Qed.
+Print Assumptions C04_filter_is_per_element.
+
+Theorem C04_closest_is_per_element : forall bidi t ns sels p, valid_target t p = true ->
+  let cx := mk_ctx t p in
+  api_closest bidi t ns sels p = closest_pure bidi cx (api_fuel sels) (Env ns false) sels (length p) p.
+Proof. exact api_closest_history_free. Qed.
+Print Assumptions C04_closest_is_per_element.
+
+Theorem C04_match_is_fresh : forall bidi t ns sels p, valid_target t p = true ->
+  api_match bidi t ns sels p = fresh bidi (mk_ctx t p) (api_fuel sels) (Env ns false) sels p.
+Proof. exact api_match_is_fresh. Qed.
+Print Assumptions C04_match_is_fresh.
+
+(* In the model the tree is an immutable value and the namespace map / iframe restriction that an HTML-only
+   list swaps in are ARGUMENTS of the recursive call, so "no query changes the document" and "restored on every
+   exit path" hold by construction; the implementation's behaviour is tied to that by the history runs
+   (serialisation, attribute values and node identities compared before/after every call sequence). *)
